@@ -69,6 +69,7 @@ PROPS["C09"] = {"level": "exploration",
 
 PROPS["C02"]["parts"].append(H("TestC02Backpressure", "Wbp", 60, 600, qs=2, ts=16, hang_is_violation=True))
 PROPS["C04"]["parts"].append(H("TestC04Backpressure", "Wbp", 60, 600, qs=1, ts=16, hang_is_violation=True))
+PROPS["C01"]["parts"].append(H("TestC01Backpressure", "Wbp", 60, 600, qs=1, ts=16, hang_is_violation=True))
 _BIN = ["part binary: the real executable built from /repo/cmd, a fake discovery service that completes (or withholds) the registration, a harness-owned credit service, real WebSocket clients over loopback TCP, real time; a start-up or transport problem is inconclusive (skip), never a violation"]
 PROPS["C15"]["parts"].append(H("TestC15Binary", "binary", 40, 600, qs=1, ts=4))
 PROPS["C15"]["assumptions"] += _BIN
@@ -84,13 +85,15 @@ PROPS["C08"]["assumptions"] += _BIN
 _FUZZ_RULE = "native Go fuzzing (coverage guided) of one message sent by a joined member that owns an entity, in a session with a witness, a subscribed component type and all modules, plus a bystander session; input = message type number and the raw bytes of all fields >= 3; state rebuilt every iteration; oracle: no panic, witness replica == server state, bystander session untouched, sender still a member or gone through the normal path, witness still served; quick tier replays the seed corpus (26 message types x 9 field blobs) and every saved crasher; non-trivial = inputs that reached new coverage (thorough) / replayed inputs (quick)"
 for _p in ("C08", "C04"):
     PROPS[_p]["parts"].append({"name": "fuzz", "gofuzz": "FuzzHandleMessage", "fuzztime": 240, "rule": _FUZZ_RULE, "test": "FuzzHandleMessage"})
-for _p in ("C01", "C02", "C06", "C07", "C09", "C10", "C12"):
+for _p in ("C01", "C02", "C06", "C07", "C08", "C09", "C10", "C11", "C12", "C13"):
     PROPS[_p]["parts"].append(dict(H("Test%sSched" % _p, "S", 1500, 4000, qs=2, ts=16, hang_is_violation=True), sched=True))
-    PROPS[_p]["assumptions"] = PROPS[_p]["assumptions"] + ["part S: scheduling points exist only at the lock acquisitions of models/*.go and modules/*/state.go (sync import redirected to the overlay package vsync); interleavings inside a critical section are not explored; RWMutex is modelled with Go's writer preference; thorough tier enumerates all schedules with <= 2 preemptions for up to 120 generated blocks per shard (at most 2000 schedules each)"]
+    PROPS[_p]["assumptions"] = PROPS[_p]["assumptions"] + ["part S: scheduling points exist only at the lock acquisitions of models/*.go and modules/*/state.go (sync import redirected to the overlay package vsync); interleavings inside a critical section are not explored; RWMutex is modelled with Go's writer preference; the driver has no clock: a frame is a step that dispatches the session's per-frame callbacks through an overlay hook, after which every connection handles what was released as part of its task; thorough tier enumerates all schedules with <= 2 preemptions for up to 120 generated blocks per shard (at most 2000 schedules each)"]
 PROPS["C06"]["parts"].append(H("TestC06Backpressure", "Wbp", 40, 400, qs=1, ts=8, hang_is_violation=True))
 PROPS["C11"]["parts"].append(H("TestC11Backpressure", "Wbp", 40, 400, qs=1, ts=8))
 PROPS["C11"]["assumptions"] = PROPS["C11"]["assumptions"] + ["part Wbp runs on real threads in real time (a synctest bubble cannot see goroutines blocked on a mutex); waiting is bounded and an exhausted wait is inconclusive"]
 PROPS["C10"]["parts"].append(dict(H("TestC10IDsExhaustive", "ids", 1, 1, qs=1, ts=1), rapid=False))
+PROPS["C10"]["parts"].append(H("TestC10IDsConcurrent", "idsR", 60, 600, qs=2, ts=16))
+PROPS["C10"]["assumptions"] = PROPS["C10"]["assumptions"] + ["part idsR: real threads on the exported id sources (plain binary, 16 cores); the interleavings are whatever the Go scheduler produces"]
 
 META = {
     "C09": {"text": "Randomised real-thread executions under the Go race detector: 2-16 concurrent clients in shared sessions, all modules, both through websocket.Handle with the production logging/metrics decorators (clients keep reading) and against bare handlers (higher contention); any race report, panic, unanswered request, or residue after all clients left fails the check. Exploration level: schedules are sampled, not enumerated.",
